@@ -19,7 +19,7 @@ use std::time::{Duration, Instant};
 
 const TIMEOUTS: [Option<u64>; 5] = [Some(0), Some(5), Some(40), Some(200), None];
 const TIMERS: [&str; 8] = ["none", "earlier", "equal", "later", "expired", "one-hour", "unrepresentable", "earlier-rearmed-from-unrepresentable"];
-const POPS: [&str; 10] = ["self-removed-source-whose-slot-was-reused", "empty", "ping-live-handle", "ping-all-handles-gone", "channel-all-senders-gone", "empty-executor", "generic-level-not-ready", "generic-empty-interest-ready", "fired-oneshot-still-ready", "disabled-sources-with-pending-readiness"];
+const POPS: [&str; 16] = ["sync-channel-drained-exactly-at-its-bound", "rendezvous-channel-after-refused-try_send", "channel-1024-messages-delivered", "lifecycle-source-slow-before-sleep", "signals-interrupt-the-wait", "lifecycle-source-slow-before-sleep-and-signals", "self-removed-source-whose-slot-was-reused", "empty", "ping-live-handle", "ping-all-handles-gone", "channel-all-senders-gone", "empty-executor", "generic-level-not-ready", "generic-empty-interest-ready", "fired-oneshot-still-ready", "disabled-sources-with-pending-readiness"];
 
 struct Cell_ {
     timeout: Option<u64>,
@@ -34,7 +34,61 @@ struct Measured {
     timer_is_limit: Option<bool>,
     other_callbacks: u32,
     helper_used: bool,
+    /// time the population's before_sleep hook takes (the user's own time inside the dispatch)
+    hook: Duration,
+    until_deadline: Option<Duration>,
+    /// signals that interrupted the wait
+    interrupts: u32,
 }
+
+/// A source with lifecycle hooks and no fd whose before_sleep takes a while (it flushes a buffer, say)
+struct SlowHook(Duration);
+
+impl calloop::EventSource for SlowHook {
+    type Event = ();
+    type Metadata = ();
+    type Ret = ();
+    type Error = std::io::Error;
+    const NEEDS_EXTRA_LIFECYCLE_EVENTS: bool = true;
+    fn process_events<F>(&mut self, _: calloop::Readiness, _: calloop::Token, _: F) -> Result<PostAction, Self::Error>
+    where
+        F: FnMut((), &mut ()),
+    {
+        Ok(PostAction::Continue)
+    }
+    fn register(&mut self, _: &mut calloop::Poll, _: &mut calloop::TokenFactory) -> calloop::Result<()> {
+        Ok(())
+    }
+    fn reregister(&mut self, _: &mut calloop::Poll, _: &mut calloop::TokenFactory) -> calloop::Result<()> {
+        Ok(())
+    }
+    fn unregister(&mut self, _: &mut calloop::Poll) -> calloop::Result<()> {
+        Ok(())
+    }
+    fn before_sleep(&mut self) -> calloop::Result<Option<(calloop::Readiness, calloop::Token)>> {
+        std::thread::sleep(self.0);
+        Ok(None)
+    }
+}
+
+static INTERRUPTS: std::sync::atomic::AtomicU32 = std::sync::atomic::AtomicU32::new(0);
+
+extern "C" fn on_sigusr2(_: libc::c_int) {
+    INTERRUPTS.fetch_add(1, std::sync::atomic::Ordering::SeqCst);
+}
+
+/// a handler without SA_RESTART: the signal makes the loop thread's epoll_wait fail with EINTR
+fn install_interrupt_handler() {
+    unsafe {
+        let mut sa: libc::sigaction = std::mem::zeroed();
+        sa.sa_sigaction = on_sigusr2 as *const () as usize;
+        libc::sigemptyset(&mut sa.sa_mask);
+        sa.sa_flags = 0;
+        libc::sigaction(libc::SIGUSR2, &sa, std::ptr::null_mut());
+    }
+}
+
+const HOOK_MS: u64 = 60;
 
 fn measure(c: &Cell_) -> Measured {
     let mut el: EventLoop<u32> = EventLoop::try_new().expect("loop");
@@ -42,7 +96,36 @@ fn measure(c: &Cell_) -> Measured {
     let mut keep: Vec<Box<dyn std::any::Any>> = Vec::new();
     let mut keep_fds: Vec<OwnedFd> = Vec::new();
     // idle population: nothing of this may shorten or lengthen the wait
+    let slow_hook = c.pop.starts_with("lifecycle-source-slow-before-sleep");
+    let interrupted = c.pop.contains("signals");
     match c.pop {
+        _ if slow_hook => {
+            h.insert_source(SlowHook(Duration::from_millis(HOOK_MS)), |_, _, n| *n += 1).unwrap();
+        }
+        "sync-channel-drained-exactly-at-its-bound" => {
+            // a full bounded channel is emptied by one dispatch: nothing is left that could justify another wake-up
+            let (tx, rx) = calloop::channel::sync_channel::<u8>(3);
+            h.insert_source(rx, |_, _, _| {}).unwrap();
+            for i in 0..3 {
+                tx.send(i).unwrap();
+            }
+            keep.push(Box::new(tx));
+        }
+        "rendezvous-channel-after-refused-try_send" => {
+            let (tx, rx) = calloop::channel::sync_channel::<u8>(0);
+            h.insert_source(rx, |_, _, _| {}).unwrap();
+            let _ = tx.try_send(1);
+            keep.push(Box::new(tx));
+        }
+        "channel-1024-messages-delivered" => {
+            // exactly the per-dispatch batch limit: the re-ping for "maybe more" costs one more (warm-up) dispatch at most
+            let (tx, rx) = channel::<u16>();
+            h.insert_source(rx, |_, _, _| {}).unwrap();
+            for i in 0..1024 {
+                tx.send(i).unwrap();
+            }
+            keep.push(Box::new(tx));
+        }
         "ping-live-handle" => {
             let (p, s) = make_ping().unwrap();
             h.insert_source(s, |_, _, n| *n += 1).unwrap();
@@ -135,7 +218,14 @@ fn measure(c: &Cell_) -> Measured {
     }
     // warm-up: closed ping / channel remove themselves, the one-shot fires
     let mut warm = 0u32;
-    for _ in 0..3 {
+    // (the channel populations get exactly the dispatches their messages need: a wake-up the source makes up
+    // for itself afterwards must show in the measured dispatch)
+    let warm_n = match c.pop {
+        "sync-channel-drained-exactly-at-its-bound" | "rendezvous-channel-after-refused-try_send" => 1,
+        "channel-1024-messages-delivered" => 2,
+        _ => 3,
+    };
+    for _ in 0..warm_n {
         el.dispatch(Some(Duration::ZERO), &mut warm).expect("warm-up dispatch");
     }
     let fired = Rc::new(Cell::new(false));
@@ -210,10 +300,49 @@ fn measure(c: &Cell_) -> Measured {
             stop,
         ));
     }
+    // signals that interrupt the wait (EINTR) are neither events nor wake-ups: at 30 %, 55 % and 75 % of the expected wait
+    let mut interrupter = None;
+    let stop_int = std::sync::Arc::new(std::sync::atomic::AtomicBool::new(false));
+    INTERRUPTS.store(0, std::sync::atomic::Ordering::SeqCst);
+    if interrupted {
+        install_interrupt_handler();
+        let expect = match (to, deadline) {
+            _ if needs_helper => Duration::from_millis(30),
+            (Some(t), Some(d)) => t.min(d.saturating_duration_since(Instant::now())),
+            (Some(t), None) => t,
+            (None, Some(d)) => d.saturating_duration_since(Instant::now()),
+            (None, None) => Duration::from_millis(30),
+        };
+        let target = unsafe { libc::pthread_self() } as usize;
+        let hook = if slow_hook { Duration::from_millis(HOOK_MS) } else { Duration::ZERO };
+        let stop2 = stop_int.clone();
+        interrupter = Some(std::thread::spawn(move || {
+            let t = Instant::now();
+            for f in [0.30, 0.55, 0.75] {
+                let at = hook + expect.mul_f64(f);
+                while t.elapsed() < at {
+                    if stop2.load(std::sync::atomic::Ordering::SeqCst) {
+                        return;
+                    }
+                    std::thread::sleep(Duration::from_micros(200));
+                }
+                if stop2.load(std::sync::atomic::Ordering::SeqCst) {
+                    return;
+                }
+                unsafe {
+                    libc::pthread_kill(target as libc::pthread_t, libc::SIGUSR2);
+                }
+            }
+        }));
+    }
     let mut cbs = 0u32;
     let t_before = Instant::now();
     let r = el.dispatch(to, &mut cbs);
     let elapsed = t_before.elapsed();
+    stop_int.store(true, std::sync::atomic::Ordering::SeqCst);
+    if let Some(i) = interrupter {
+        let _ = i.join();
+    }
     r.expect("dispatch");
     let keep_ping = helper.map(|h| h.join().unwrap());
     let keep_ping2 = rescuer.map(|(h, stop)| {
@@ -247,7 +376,17 @@ fn measure(c: &Cell_) -> Measured {
     drop(keep_ping2);
     drop(keep);
     drop(keep_fds);
-    Measured { elapsed, limit, timer_fired: fired.get(), timer_is_limit, other_callbacks: cbs, helper_used: needs_helper }
+    Measured {
+        elapsed,
+        limit,
+        timer_fired: fired.get(),
+        timer_is_limit,
+        other_callbacks: cbs,
+        helper_used: needs_helper,
+        until_deadline,
+        hook: if slow_hook { Duration::from_millis(HOOK_MS) } else { Duration::ZERO },
+        interrupts: INTERRUPTS.load(std::sync::atomic::Ordering::SeqCst),
+    }
 }
 
 fn main() {
@@ -291,6 +430,24 @@ fn main() {
                 if only.is_some() {
                     println!("{}: elapsed {:?}, limit {:?}, timer fired {}, other callbacks {}", name, m.elapsed, m.limit, m.timer_fired, m.other_callbacks);
                 }
+                if m.interrupts > 0 {
+                    res.cov("wait-interrupted-by-a-signal", 1);
+                    *res.events.entry("signal_interruptions".into()).or_insert(0) += m.interrupts as u64;
+                }
+                // upper bound: generous, three consecutive failures. The time the user's own before_sleep hook takes is
+                // the user's: a timeout runs from the start of the wait, a timer deadline is absolute - a deadline that is
+                // the limit must not be overslept by (a good part of) the hook's duration
+                let mut ceiling = match m.limit {
+                    Some(l) => l + m.hook + Duration::from_millis(150).max(l * 2),
+                    None => Duration::from_secs(5),
+                };
+                if !m.hook.is_zero() && m.timer_is_limit == Some(true) && !m.helper_used {
+                    if let Some(l) = m.limit {
+                        let slack = m.hook.min(l).mul_f64(0.6).max(Duration::from_millis(8));
+                        ceiling = l.max(m.hook) + slack;
+                        res.cov("deadline-limit-with-slow-hook", 1);
+                    }
+                }
                 let mut v = |clause: &str, culprit: &str, detail: String| {
                     res.violations.push(Violation { prop: args.prop.clone(), clause: clause.into(), culprit: culprit.into(), detail: format!("{} [{}]", detail, name), replay: replay.clone() });
                 };
@@ -310,17 +467,12 @@ fn main() {
                     Some(true) if !m.timer_fired => v("fires_limit_timer", "limit-timer-not-fired", format!("the timer was the limit ({:?}) but did not fire in that dispatch (elapsed {:?})", m.limit, m.elapsed)),
                     Some(false) if m.timer_fired && c.timer != "expired" => {
                         // a timer later than the timeout may fire only if the dispatch really lasted that long
-                        if c.timer == "later" || c.timer == "one-hour" {
+                        if (c.timer == "later" || c.timer == "one-hour") && m.until_deadline.map(|d| m.elapsed < d).unwrap_or(true) {
                             v("no_oversleep", "later-timer-fired", format!("a timer later than the timeout fired (elapsed {:?})", m.elapsed));
                         }
                     }
                     _ => {}
                 }
-                // upper bound: generous, three consecutive failures
-                let ceiling = match m.limit {
-                    Some(l) => l + Duration::from_millis(150).max(l * 2),
-                    None => Duration::from_secs(5),
-                };
                 if m.elapsed > ceiling {
                     upper_fail += 1;
                     if upper_fail >= 3 {
